@@ -71,5 +71,39 @@ def main():
     sys.exit(1 if fails else 0)
 
 
+def main_lookups():
+    """every ext_grid is switched off after a first calculation; a gen with slack=True (not the first gen) remains the reference"""
+    fails = []
+
+    def build():
+        net = pp.create_empty_network()
+        b = pp.create_buses(net, 4, 110.)
+        pp.create_ext_grid(net, b[0], vm_pu=1.02)
+        for f, t in ((0, 1), (1, 2), (2, 3), (3, 0)):
+            pp.create_line_from_parameters(net, b[f], b[t], 20., 0.06, 0.3, 10., 1.)
+        pp.create_gen(net, b[2], p_mw=10., vm_pu=1.01)
+        pp.create_gen(net, b[2], p_mw=15., vm_pu=1.01, slack=True)
+        pp.create_gen(net, b[1], p_mw=20., vm_pu=1.0)
+        pp.create_load(net, b[3], 60., 10.); pp.create_load(net, b[1], 25., 5.)
+        return net
+    for name, second in (("rundcpp", lambda n: pp.rundcpp(n)), ("runpp(init='results')", lambda n: pp.runpp(n, init="results")),
+                         ("runpp", lambda n: pp.runpp(n))):
+        net = build()
+        pp.runpp(net)
+        net.ext_grid["in_service"] = False
+        second(net)
+        f = fresh_copy(net)
+        (pp.rundcpp if name == "rundcpp" else pp.runpp)(f)
+        if not np.allclose(net.res_gen.p_mw.values, f.res_gen.p_mw.values, atol=1e-5):
+            fails.append(f"{name} after all ext_grids were switched off: gen powers {net.res_gen.p_mw.values.round(3)} on the used net, "
+                         f"{f.res_gen.p_mw.values.round(3)} on a fresh copy of the same state")
+        same(net, f, f"{name} after all ext_grids were switched off", fails)
+    for x in fails:
+        print("REPRODUCED:", x)
+    if not fails:
+        print("not reproduced: used net objects give the results of fresh copies")
+    sys.exit(1 if fails else 0)
+
+
 if __name__ == "__main__":
     main()
